@@ -101,12 +101,15 @@ func main() {
 '''
 
 
-def build_cold(E, base, files, gflags, env, tag, srcname="src", tmpname=None, pflag=None, debugdir=False):
+def build_cold(E, base, files, gflags, env, tag, srcname="src", tmpname=None, pflag=None, debugdir=False, wipe_garble=False):
     """one build in caches that never saw the module; returns (sha256, dict(debugdir files) or None, stderr)"""
     C = c06.CacheSet(E, "cold_" + tag, base, link_go=True)
     root = os.path.join(E.scratch, srcname)
     shutil.rmtree(root, ignore_errors=True)
     c06.write_prog(root, files)
+    if wipe_garble:
+        # garble's own entries gone (reflection info of every dependency has to be recomputed), the go build cache kept
+        shutil.rmtree(os.path.join(C.garble, "build"), ignore_errors=True)
     ex = dict(env or {})
     if tmpname:
         t = os.path.join(E.scratch, tmpname)
@@ -150,26 +153,40 @@ def main(tier, replay=None):
     try:
         rnd = random.Random(chk.seed * 59 + 7)
         prog = progen.gen_program(rnd, nsnip=7, toolchain=True, must=[progen.s_asm, progen.s_generics])
+        # literals above 256 bytes take another path when the obfuscator is picked
+        big = prog.n("bigLiteral", False)
+        prog.add("", 'var %s = []string{"%s", "%s"}\n' % (big, "".join(rnd.choice("abcdefghijklmnopqrstuvwxyz ") for _ in range(300)), "".join(rnd.choice("ABCDEFGHIJKLMNOP0123456789") for _ in range(450))))
+        prog.run_func("", "\treturn %s[len(args)%%2][:20]" % big)
         gen_files = prog.render()
+        # a second program: JSON through a dependency, built with GOGARBLE restricted to the module
+        jprog = progen.Prog(rnd, npkgs=3)
+        progen.s_json_via_dependency(jprog)
+        progen.s_structs(jprog)
+        json_files = jprog.render()
         ctrl_files = {"go.mod": "module gv.test/ctrl\n\ngo 1.26\n", "main.go": CTRL_MAIN.replace("block_splits=4TRASH", "block_splits=4")}
         trash_files = {"go.mod": "module gv.test/ctrl\n\ngo 1.26\n", "main.go": CTRL_MAIN.replace("block_splits=4TRASH", "block_splits=4 trash_blocks=6")}
         CF = {"GARBLE_EXPERIMENTAL_CONTROLFLOW": "1"}
         SEED = "-seed=o9WDTZ4CN4w"
         configs = [("default", [], None, gen_files), ("-literals -seed", ["-literals", SEED], None, gen_files),
-                   ("controlflow -seed", [SEED], CF, ctrl_files)]
+                   ("controlflow -seed", [SEED], CF, ctrl_files), ("GOGARBLE=module", [], {"GOGARBLE": jprog.mod}, json_files)]
         if tier == "thorough":
             configs += [("-tiny", ["-tiny"], None, gen_files), ("controlflow, unseeded", [], CF, ctrl_files), ("controlflow -literals -tiny -seed", ["-literals", "-tiny", SEED], CF, ctrl_files),
                         ("-literals, unseeded", ["-literals"], None, gen_files)]
         hello = E.write_module("hello", {"go.mod": "module gv.test/hello\n\ngo 1.26\n", "main.go": "package main\n\nimport (\n\t\"fmt\"\n\t\"os\"\n\t\"strconv\"\n\t\"strings\"\n)\n\nfunc main() { fmt.Println(strings.Repeat(strconv.Itoa(len(os.Args)), 2)) }\n"})
         for (label, gflags, env, files) in configs:
-            r = E.run_garble(gflags, ["build", "-o", "out", "."], hello, env)
+            wroot = hello
+            if env and env.get("GOGARBLE"):
+                # the standard library's garble cache entries depend on GOGARBLE: warm them with another program of the same module path
+                wroot = E.write_module("hello_gg", {"go.mod": "module %s\n\ngo 1.26\n" % env["GOGARBLE"],
+                                                    "main.go": "package main\n\nimport (\n\t\"encoding/json\"\n\t\"fmt\"\n\t\"os\"\n\t\"strconv\"\n)\n\nfunc main() { b, _ := json.Marshal(os.Args); fmt.Println(strconv.Itoa(len(b))) }\n"})
+            r = E.run_garble(gflags, ["build", "-o", "out", "."], wroot, env)
             if r.returncode != 0:
                 chk.notes.append("warm-up failed for %s: %s" % (label, r.stderr[-200:]))
         base = c06.CacheSet(E, "base"); base.drop(); os.makedirs(base.dir)
         c06.copy_tree(E.gocache, base.go); c06.copy_tree(E.garblecache, base.garble)
         st = chk.cov["streams"].setdefault("e2e:cold-pairs", {"configurations": 0, "cold_builds": 0, "identical_binaries": 0, "debugdir_sources_identical": 0})
         variations = [("same everything", dict()), ("other source dir, other TMPDIR, -p=1", dict(srcname="elsewhere/deeper/src2", tmpname="tmp-two", pflag=1)),
-                      ("-p=16", dict(pflag=16))]
+                      ("-p=16", dict(pflag=16)), ("GARBLE_CACHE/build emptied, GOCACHE kept", dict(wipe_garble=True))]
         if tier == "thorough":
             variations += [("again", dict()), ("-p=3, other TMPDIR", dict(pflag=3, tmpname="tmp-three")), ("again 2", dict()), ("again 3", dict())]
         # -debugdir forces a full rebuild (-a, standard library included): only the thorough tier compares the
